@@ -89,7 +89,9 @@ class Aff:
             if isinstance(s, tuple):
                 if len(s) == 1:
                     return str(s[0])
-                return s[0] + '(' + ','.join(nm(x) if isinstance(x, tuple) else str(x) for x in s[1:]) + ')'
+                if s[0] == 'f' and len(s) == 4:
+                    return nm(s[1]) + ('::' + str(s[2]) if s[2] else '') + '.' + str(s[3])
+                return str(s[0]) + '(' + ','.join(nm(x) if isinstance(x, tuple) else str(x) for x in s[1:]) + ')'
             return str(s)
         parts = []
         for k, v in sorted(self.t.items(), key=repr):
@@ -234,6 +236,8 @@ class Sym:
                     return c.scale(a.c) if a.is_const() else a.scale(c.c)
                 if a.is_const() and c.is_const() and op in ('Lt', 'Le', 'Gt', 'Ge', 'Eq', 'Ne'):
                     return Aff.const(int({'Lt': a.c < c.c, 'Le': a.c <= c.c, 'Gt': a.c > c.c, 'Ge': a.c >= c.c, 'Eq': a.c == c.c, 'Ne': a.c != c.c}[op]))
+            if isinstance(a, Aff) and isinstance(c, Aff) and op in ('Lt', 'Le', 'Gt', 'Ge', 'Eq', 'Ne'):
+                return Aff.sym(('cmp', op, a, c))
             return Aff.sym(('bin', op, repr(a), repr(c)))
         if k == 'un':
             a = self.operand(p, rv.ops[0])
@@ -359,3 +363,55 @@ def recurrence(paths_back, local):
     if len(kinds) == 1:
         return kinds.pop()
     return ('mixed', sorted(map(repr, kinds)))
+
+
+def linear_preds(conds, base):
+    """comparisons among the path conditions that constrain the affine quantity `base` (no constant part):
+    those whose  lhs - rhs == alpha * base + k  -> [(op, alpha, k, taken)]"""
+    out = []
+    items = list(base.t.items())
+    if not items:
+        return out
+    k0, v0 = items[0]
+    for (_, d, taken) in conds:
+        s1 = d.single() if isinstance(d, Aff) else None
+        if not (isinstance(s1, tuple) and s1[0] == 'cmp'):
+            continue
+        op, a, c = s1[1], s1[2], s1[3]
+        diff = a - c
+        co = diff.t.get(k0, 0)
+        if co == 0 or co % v0 != 0:
+            continue
+        alpha = co // v0
+        rest = diff - base.scale(alpha)
+        if rest.t:
+            continue
+        out.append((op, alpha, rest.c, taken))
+    return out
+
+
+def preds_hold(preds, u):
+    for (op, alpha, k, taken) in preds:
+        v = alpha * u + k
+        t = {'Lt': v < 0, 'Le': v <= 0, 'Gt': v > 0, 'Ge': v >= 0, 'Eq': v == 0, 'Ne': v != 0}[op]
+        if t != (taken is None or taken != 0):
+            return False
+    return True
+
+
+def slice_range(prog, body, self_sym):
+    """(lo, hi) of the single `x[lo..hi]` in an accessor body, with its `self` named `self_sym`"""
+    init = Path()
+    init.env[1] = Aff.sym(self_sym)
+    out = []
+    for p in Sym(prog, body).run(0, init=init):
+        for (_, t, args) in p.effects:
+            if t.callee and t.callee.is_('std::ops::Index::index') and len(args) == 2 and isinstance(args[1], Agg) and len(args[1].fields) == 2:
+                out.append((args[1].fields[0], args[1].fields[1]))
+    return out[0] if len(out) == 1 else None
+
+
+def pretty(body, text):
+    """replace H(<local>) by the source name of the local"""
+    import re
+    return re.sub(r'H\((\d+)\)', lambda m: '`%s`' % body.names.get(int(m.group(1)), '_' + m.group(1)), str(text))
